@@ -1,6 +1,7 @@
 import OjgVerif.Common.Driver
 import OjgVerif.Reflect.Model
 import OjgVerif.Reflect.Registry
+import OjgVerif.Reflect.RoundTripSpec
 /-! Driver ops of the `reflect` family (line protocol, see `Common/Driver.lean`).
 
 Types and values travel as space separated tokens in prefix form (strings as hex, `-` = empty):
@@ -15,6 +16,8 @@ Ops:
   (model) / the reference describes; `<dev>` is `-` or letters of `lxyenmo` (`Dev` flags in the order
   of the structure); `<flags>` eight 0/1: tags exact nest omitnil omitempty fullpath indent strict.
   Answers `panic`, `outside` (not in the modelled fragment) or the canonical tree.
+* `rtok <flags> <bytesAs> <createKey> <type> <value>` — `yes` when the hypotheses of the round-trip theorem
+  (`rtOK (effOpts o)`, no interface slot, OmitNil/OmitEmpty/strict off) hold, else `no`.
 * `recomp <b|-> <createKey> <history> <type> <tree>` — `Recompose(tree, new(type))` on a recomposer that
   has seen the history; `b`: the code as it is (lookup by bare name), `-`: with the repair.
   `<history>` is `-` or events joined by ` ; `: `R <type>` (RegisterComposer) or `C <type> | <tree>`
@@ -358,8 +361,19 @@ def handleRecomp : List String → String
     | _, _, _, _, _ => "bad-op"
   | _ => "bad-op"
 
+/-- `rtok <flags> <bytesAs> <createKey> <type> <value>`: do the hypotheses of the round-trip theorem
+(`OjgVerif.C16.recompose_inverts_decompose_history`) hold for this case — `yes` / `no` -/
+def handleRtok (flags bytesAs ck ty val : String) : String :=
+  match readOpts flags bytesAs ck, readType ty, readVal val with
+  | some o, some t, some v =>
+    if !o.omitNil && !o.omitEmpty && !o.strict && typeInFragment t && valInFragment v && noIface t &&
+        rtOK (effOpts o) 256 t v then "yes"
+    else "no"
+  | _, _, _ => "bad-op"
+
 def handle : List String → String
   | ["enc", which, dev, flags, bytesAs, ck, ty, val] => handleEnc which dev flags bytesAs ck ty val
+  | ["rtok", flags, bytesAs, ck, ty, val] => handleRtok flags bytesAs ck ty val
   | "recomp" :: args => handleRecomp args
   | _ => "bad-op"
 
